@@ -31,8 +31,8 @@ CLAIMS['C04'] = dict(tech=TECH_K, ref='DESIGN.md §0, §4 C04',
    text='(a) Real SW/TE model code on toy curves, oracle = brute-force scalar-multiple table: Affine::mul_bigint, Affine * s, Projective *= s, mul_bits_be (ALL bit streams of length <= 5 incl. empty and all-zero), TE mul_bigint and Projective * s, for ALL points (identity, small-order points) and ALL raw integers k < 2^4 (k >= r, 0, 1, r-1 inside) / ALL scalar-field elements. (b) The generic algorithms over the free group Z with base 1, where the result must be the integer k: WnafContext::mul (windows 2, 3), table + mul_with_table (too-short table -> None), BatchMulPreprocessing::new(..).batch_mul, for ALL scalars of F_13 / F_61.',
    note=NOTE + PLAIN + ' GLV decomposition / glv_mul (num-bigint division) is NOT covered; scalars are 4-6 bits; 2-limb scalars, window 4 and larger tables only in the thorough tier.')
 CLAIMS['C07'] = dict(tech=TECH_K, ref='DESIGN.md §0, §4 C07',
-   text='Radix-2 / General evaluation domains over F_17 (two-adicity 4): construction for ALL requested sizes 0..=20 (size minimal power of two >= n, None exactly when no subgroup exists, generator of EXACT order, inverse/size_inv/offset fields consistent); cosets with ALL non-zero offsets: element(i), elements() order, evaluate_vanishing_polynomial at ALL points; FFT of ALL coefficient vectors (sizes 4 and 8; input lengths on both sides of the degree-aware threshold; subgroup and coset) equals Horner evaluation at offset*g^i for every i, and ifft(fft(c)) = c; Lagrange coefficients at ALL points (inside and outside the coset) interpolate every polynomial of degree < 4.',
-   note=NOTE + 'Field = table-backed FpConfig F_17 (harness crate). Mixed-radix domains, size 16 (thorough), sizes > 16 and 255-bit fields are outside the quick claim.')
+   text='Radix-2 / General evaluation domains over F_17 (two-adicity 4): construction for requested sizes 0,1,2,3,5,8,9,16,17,20 (size minimal power of two >= n, None exactly when no subgroup exists, generator of EXACT order, inverse/size_inv fields consistent); cosets with offsets 3 and -1: element(i), elements() order, evaluate_vanishing_polynomial at ALL points; FFT of ALL coefficient vectors (size 4; input lengths 0..4, i.e. both sides of the degree-aware threshold; subgroup, generic coset, and a coset whose offset lies inside the subgroup) equals Horner evaluation at offset*g^i for every i, and ifft(fft(c)) = c.  Thorough tier: sizes 8 and 16, Lagrange coefficients at ALL points (inside and outside the coset), symbolic requested size.',
+   note=NOTE + 'Field = table-backed FpConfig F_17 (harness crate). Coset offsets are concrete (a symbolic offset makes the pow/inverse chain in get_coset too expensive). Mixed-radix domains, sizes > 16 and 255-bit fields are outside the claim.')
 CLAIMS['C08'] = dict(tech=TECH_K, ref='DESIGN.md §0, §4 C08',
    text='DensePolynomial over F_13 with concrete lengths and ALL coefficients symbolic (non-zero leading coefficient; zero polynomial as its own case): +, -, neg, scalar *, +=, -=, scaled add (a += (s, &b) = a + s*b) for length pairs (2,2) [cancelling leading terms], (3,1)/(1,3), zero operands: result canonical (no leading zero, degree() does not fail) and pointwise equal to the combination of the operands at a symbolic evaluation point (all degrees < 13, so this is polynomial equality); constructors canonicalise ALL raw coefficient vectors of length <= 3.',
    note=NOTE + 'SparsePolynomial construction (sort_by on a Vec of pairs) exceeds the CBMC budget even for one term: ALL sparse, dense/sparse-mixed, naive_mul and division harnesses are thorough-tier ATTEMPTS and not part of the claim. The six sparse/mixed defects repaired by fix: commits were found by replaying those harness functions natively on random tapes (tools/native_smoke.py), not by the solver.')
@@ -43,25 +43,25 @@ CLAIMS['C10'] = dict(tech=TECH_K, ref='DESIGN.md §0, §4 C10',
    text='EVERY byte string of length 0..=2 offered to the point deserializers of toy SW (cofactor 1 and 4) and TE (complete cofactor 4; incomplete law where the decompression denominator can vanish) curves in all 4 modes, and every byte string up to size+1 to field deserializers: never a panic / overflow, exactly the advertised number of bytes consumed, Ok(point) exactly when an independent brute-force decoder succeeds; with validation a returned point is on the curve AND in the prime-order subgroup; both-flags-set, non-reduced coordinates, abscissae without root, off-curve and out-of-subgroup encodings are rejected.',
    note=NOTE + PLAIN + ' Curve-specific fast subgroup tests of the 254-381-bit curve crates and PairingOutput are not covered.')
 CLAIMS['C11'] = dict(tech=TECH_K, ref='DESIGN.md §0, §4 C11',
-   text='For ALL x: sqrt(x) is Some exactly when x is a square (brute-force oracle / Euler criterion by oracle power), root^2 = x, sqrt(0) = 0, legendre agrees: F_7 (Case3Mod4 from the real MontConfig), F_17 (generic Tonelli-Shanks, two-adicity 4, maximal-round elements inside), Fp2 over F_7 (both c1 = 0 sub-cases). Curve helpers get_ys_from_x_unchecked / get_point_from_x_unchecked (SW) and get_xs_from_y_unchecked / get_point_from_y_unchecked (TE, incl. a curve whose denominator vanishes) for ALL coordinates: None iff no point, otherwise both solutions in (smaller, larger) order.',
+   text='For ALL x: sqrt(x) is Some exactly when x is a square (brute-force oracle / Euler criterion by oracle power), root^2 = x, sqrt(0) = 0, legendre agrees: F_7 (Case3Mod4 from the real MontConfig), F_17 (generic Tonelli-Shanks over the table-backed field, two-adicity 4, maximal-round elements inside), Fp2 over F_7 (both c1 = 0 sub-cases). Curve helpers get_ys_from_x_unchecked / get_point_from_x_unchecked (SW) and get_xs_from_y_unchecked / get_point_from_y_unchecked (TE, incl. a curve whose denominator vanishes) for ALL coordinates: None iff no point, otherwise both solutions in (smaller, larger) order.',
    note=NOTE + PLAIN + ' Tonelli-Shanks over the real Montgomery F_13, Fp2/F_13, Fp3 and two-adicity > 4 are thorough-tier (attempts).')
 CLAIMS['C12'] = dict(tech=TECH_K, ref='DESIGN.md §0, §4 C12',
    text='DEFAULT implementations on toy curves, for ALL points of E(F_q) (mostly outside the subgroup; 2-/4-torsion included): is_in_correct_subgroup_assuming_on_curve(P) <=> r*P = O (brute-force table), cofactor-1 curve always true; clear_cofactor / mul_by_cofactor = h*P and lands in the subgroup; mul_by_cofactor_inv composed with mul_by_cofactor is the identity on the subgroup. SW cofactor 4 and 1, TE cofactor 4 (8 thorough).',
    note=NOTE + PLAIN + ' The endomorphism-based overrides of bls12_381 / bls12_377 / bn254 (psi, sigma) are NOT covered (254-381-bit fields).')
 CLAIMS['C13'] = dict(tech=TECH_K, ref='DESIGN.md §0, §4 C13',
-   text='hash_to_field through the public DefaultFieldHasher (generic over the digest) with a toy 4-byte digest: for ALL messages of length 0..3 and ALL DSTs of length 0, 2, 4, two field elements over F_13 and one over Fp2 equal an independent implementation of RFC 9380 expand_message_xmd + OS2IP mod p over the same digest (Z_pad, I2OSP(len,2), I2OSP(0,1), DST prime, b_0/b_1/strxor chaining, chunk offsets). Simplified SWU on a toy curve for ALL field elements u (u = 0 and exceptional denominators inside): output equals the straight-line RFC 9380 6.6.2 reference, lies on the curve, sgn0(y) = sgn0(u).',
+   text='hash_to_field through the public DefaultFieldHasher (generic over the digest) with a toy 4-byte digest: for ALL messages of length 0, 1, 2, 3 and ALL DSTs of length 2 (and the empty DST; 4-byte DST thorough), two field elements over F_13 and one over Fp2 equal an independent implementation of RFC 9380 expand_message_xmd + OS2IP mod p over the same digest (Z_pad, I2OSP(len,2), I2OSP(0,1), DST prime, b_0/b_1/strxor chaining, chunk offsets). Simplified SWU on a toy curve for ALL field elements u (u = 0 and exceptional denominators inside): output equals the straight-line RFC 9380 6.6.2 reference, lies on the curve, sgn0(y) = sgn0(u).',
    note=NOTE + PLAIN + ' The instantiation uses L = digest block size as the supported BLS12-381 suites do. NOT covered: byte equality with RFC 9380 for BLS12-381 (381-bit SWU + isogeny + SHA-256), oversize DST path, Wahby-Boneh and Elligator 2 maps, final cofactor clearing.')
 CLAIMS['C16'] = dict(tech=TECH_K + ' (used as an interpreter: these configurations are closed, there is no free input)', ref='DESIGN.md §0, §4 C16',
    text='GROUND relations (no symbolic input) recomputed independently: Montgomery constants INV, R, R2 (vs shift-and-subtract), spare-bit and no-carry flags for every field configuration of test-curves (bls12_381, mnt4_753, bn384, secp256k1, ed_on_bls12_381, fp128), curves/bls12_381 and the harness configurations; TWO_ADICITY = v2(p-1) and TWO_ADIC_ROOT_OF_UNITY of EXACT order 2^s; curve generators on their curve; COFACTOR * COFACTOR_INV = 1 mod r.',
    note=NOTE + 'free_inputs: 0. NOT covered: generator non-residuosity, root = g^t exactly, r*G = O, Frobenius tables, GLV / isogeny / twist parameters, and every curves/* crate other than bls12_381 (they depend on crates that are not available offline).')
 CLAIMS['C17'] = dict(tech=TECH_K, ref='DESIGN.md §0, §4 C17',
-   text='DenseMultilinearExtension over F_13 with ALL table values and ALL evaluation points symbolic (Boolean and non-Boolean): evaluate = sum over the hypercube of table[b]*eq(b, r) for 0, 1, 2 variables (3 thorough); fix_variables for every prefix length; relabel for ALL admissible (a, b, k); concat with zero padding; +, -, neg, scalar * (non-zero scalar), scaled +=.',
+   text='DenseMultilinearExtension over F_13 with ALL table values and ALL evaluation points symbolic (Boolean and non-Boolean): evaluate = sum over the hypercube of table[b]*eq(b, r) for 1 and 2 variables (0 and 3 thorough); fix_variables for every prefix length; concat with zero padding; neg (2 variables); +, -, scaled += (1 variable; 2 variables thorough).  Thorough: relabel for ALL admissible (a, b, k), scalar *.',
    note=NOTE + 'Field = table-backed F_13. Sparse MLE (hashbrown) and multivariate SparsePolynomial harnesses are thorough attempts. KNOWN-FINDING (recorded, not repaired): scaling a dense MLE by the scalar 0 collapses it to the 0-variable constant zero, so evaluate() at a point of the original dimension panics.')
 CLAIMS['C19'] = dict(tech=TECH_K, ref='DESIGN.md §0, §4 C19',
    text='Prime fields (Montgomery F_13 derive, F_251 hand-written), ALL triples: == iff same integer, cmp/partial_cmp/</<= are the integer order of the decoded values (not of the Montgomery limbs), transitive, is_zero/is_one iff == ZERO/ONE, equal values feed identical byte streams to Hash; Fp2: documented lexicographic order (c1 then c0), total, antisymmetric, transitive, consistent with ==. Toy SW and TE curves, ALL pairs of points and ALL rescalings: projective == independent of representative, Projective == Affine, equal points hash identically (different Jacobian/extended coordinates, affine vs projective).',
    note=NOTE + PLAIN + ' BigInt ordering is decided in C15. PairingOutput and polynomial equality after different operation sequences are not covered.')
 CLAIMS['C20'] = dict(tech=TECH_KW, ref='DESIGN.md §0, §4 C20',
-   text='The const constructors behind the literal macros are ordinary functions: Fp::from_sign_and_limbs(sign, [v]) and Fp::new for ALL v: u64 (values >= p included) and both signs equal +-(v mod p) canonically on tiny moduli (derive and hand-written); at one full limb Fp::new(v) equals the textbook Montgomery product v*R2*R^-1 for ALL v (cvc5), for no-spare-bit, hand-written and spare-bit moduli. Literal text -> limbs runs inside rustc: a fixed grid of MontFp!/BigInt! literals (radix 2/8/10/16, minus sign, leading zeros, 0, 1, p-1, p, p+1; 1-4 limbs) is compared with run-time values (ground).',
+   text='The const constructors behind the literal macros are ordinary functions: Fp::from_sign_and_limbs(sign, [v]) and Fp::new for ALL v < 2^8..2^10 (values >= p and multiples of p included) and both signs equal +-(v mod p) canonically on tiny moduli (derive and hand-written); Fp::new(v) equals the textbook Montgomery product v*R2*R^-1 for ALL v: u64 (cvc5) for F_13 and for full one-limb moduli (no spare bit, hand-written, spare bit). Literal text -> limbs runs inside rustc: a fixed grid of MontFp!/BigInt! literals (radix 2/8/10/16, minus sign, leading zeros, 0, 1, p-1, p, p+1; 1-4 limbs) is compared with run-time values (ground).',
    note=NOTE + 'All literal strings are NOT decided (proc macro); 2-limb and wider const constructors are not in the quick claim.')
 NA = {
  'C14': 'Results independent of the parallel feature / thread count: Kani/CBMC do not model threads, so schedules cannot be explored; the planned sequential-rayon stub with a symbolic thread count (DESIGN.md §4 C14) was not built in the time available, so nothing is claimed.',
